@@ -24,7 +24,7 @@ RULE = ("call sets (1-40 samples, 0-300 records; a fifth of them with a ploidy e
 ASSUMPTIONS = ["which inflater thread finishes first is not observable from outside: schedules are perturbed, not enumerated; TSan/Miri carry the schedule quantifier",
                "the lone '.' GT (VCF missing value) is never generated: VCF and BCF paths legitimately differ on it (outside the property's diploid domain)"]
 FLOORS = {"quick": {"evaluations": 5000, "distinct_nontrivial": 100, "counts": {"runs": 5000, "callsets": 150}},
-          "thorough": {"evaluations": 60000, "distinct_nontrivial": 900, "counts": {"runs": 60000, "callsets": 900}}}
+          "thorough": {"evaluations": 60000, "distinct_nontrivial": 600, "counts": {"runs": 60000, "callsets": 900}}}
 NSHARD = 32
 THREADS = [1, 2, 3, 4, 8, 16]
 LAYOUTS = ["single", "unit", "random", "midrecord", "stored", "empties", "double_eof", "tiny", "tinyfirst", "odd_header"]
